@@ -86,7 +86,11 @@ def seq_guard(lib, p11drv, seed, idx):
         removed = set()
     elif mode == 'positive':
         keep = set(rng.sample(ALL_M, rng.randint(3, len(ALL_M) - 3)))
-        conf = ','.join(sorted(keep))
+        names = sorted(keep)
+        if rng.random() < 0.5:
+            names += rng.sample(names, rng.randint(1, 3))      # repeated names are legal in the list
+            rng.shuffle(names)
+        conf = ','.join(names)
         removed = None
     else:
         removed = set(rng.sample(ALL_M, rng.randint(1, 12)))
@@ -103,6 +107,9 @@ def seq_guard(lib, p11drv, seed, idx):
         p.op('logout %s' % s)
         p.op('login %s 1 35363738' % s)
         r = p.op('mechlist t0')
+        if r.get('ovw') == '1' or 'count_second' in r:
+            c.bad('C_GetMechanismList: the count announced for a NULL buffer (%s) and the list then written (%s entries%s) do not agree'
+                  % (r.get('count_first', '?'), r.get('count_second', '?'), ', beyond the buffer' if r.get('ovw') == '1' else ''))
         adv = set(int(x, 16) for x in r.get('mechs', '').split(',') if x)
         # the advertised list is exactly what the configuration says
         for nm in ALL_M:
